@@ -4,6 +4,8 @@ import json, subprocess
 
 TECH = "contract-based deductive verification: weakest-precondition VCs over go/ssa of the real functions, contracts in /repo/src/contracts_verif.go, discharged by z3/cvc5"
 CLAIMS = {
+ "C07": ("zero-annotation safety sweep over every package-main function reachable from processMongoLogStream (parseValue, UnmarshalOrdered, MarshalOrdered, RedactMongoLog, redactCommand, redactNamespace, redactQueryValues, redactArrayValuesWithKey, redactArrayValues, redactPipelineStage, getOp, traverseMapPath, augmentOp, RemoveElementAfter, RemoveElementsBeforeIncluding, redactScalarValue, redactString, reMatchesAnyKeyInPath, IsEmail, isRedactableFieldPatternInArray, isInSearchStage, redactFieldNamesFromPlanSummary, ParsePlanSummary, HashName, addOneToBar, processMongoLogStream): every unchecked type assertion, slice/string index, slice expression, nil dereference, nil-receiver method call, interface comparison, make() size and explicit panic is an obligation, with only the thin preconditions needed (non-empty key path, table arguments are operator tables); processMongoLogStream: a non-nil result implies a writer or scanner failure (a bad line never ends the run).",
+         "A-OM (ordered-map model), A-JSON (Token in key position yields a string: explicit assume_after, listed), VAL-INV (no typed-nil map pointer inside an interface value: obligation at every MakeInterface, assumed at every type test), dependencies do not panic on non-nil receivers; stack exhaustion by extreme nesting and the scanner's 64 KiB limit are not decided; 'at most one WELL-FORMED output line' rests on the serialiser contracts of C03"),
  "C08": ("contracts on processMongoLogStream (loop invariant: no write to the output writer and no scan has failed), ProcessMongoLogFile, ProcessMongoLogFileFromReader and the redact closure main$1 (every os.Exit has a non-zero code; normal return implies no failed writer / scanner / open). Ghost state wfailOn/scanErr/openFail is driven by the ASSUMED contracts of fmt.Fprintln, bufio.Scanner, FileReader.Open and gzip.NewReader; the fault is a nondeterministic choice in every iteration, so every fault position is covered at once.",
          "A-SCAN (gzip damage / read errors surface through Scanner.Err), A-FMT (Fprintln returns the writer's error); 'what was written is a prefix of whole lines' is argued from one Fprintln per iteration, not proved as a sequence property; RedactMongoLog/MarshalOrdered bodies are used by trusted contract here"),
  "C09": ("contracts on redactString, Encrypt, Decrypt, keysetHandleFromRawKey, ReadKeyFromFile and the decrypt closure main$2, plus the spec-level round-trip lemma: decrypt prints daeadDec(key-on-disk, b64dec(arg)), redact emits b64enc(daeadEnc(key, bytes(s))), every error path exits non-zero without printing a value.",
